@@ -70,6 +70,14 @@ Theorem C06_ident_anywhere : forall T ulower r s rest,
 Proof. exact quoted_ident_anywhere. Qed.
 Print Assumptions C06_ident_anywhere.
 
+(* no break-out, anywhere: for ANY content (NUL and whatever else the folded text holds) a quoted string that lies ahead
+   is one STRING ending exactly where the value ends, or a BADSTRING - from every reader state inside the text *)
+Theorem C06_no_breakout_anywhere : forall T ulower r s rest,
+  no_cr T -> at_ T r (quote_string s ++ rest) -> r_n r <= 2 ->
+  exists tok p lit r', scan ulower r = ((tok, p, lit), r') /\ ((tok = STRING /\ lit = s /\ at_ T r' rest) \/ tok = BADSTRING).
+Proof. exact quote_string_any_anywhere. Qed.
+Print Assumptions C06_no_breakout_anywhere.
+
 (* the hypothesis on T is what the reader guarantees: a CR-folded text has no CR *)
 Theorem C06_folded_text_has_no_cr : forall src, no_cr (fold_cr src).
 Proof. exact fold_cr_no_cr. Qed.
